@@ -424,24 +424,26 @@ def run_log(case, ctx):
         return outcome(skip='logical reference undefined: ' + str(e.args[0]), monitors={})
     if env.get('units'):
         classes.add('log-custom-unit-env')
-    tw = R.LogEval(env, twin=True)
-    try:
-        twin = ('value',) + tuple(tw.node(tree))
-    except R.TwinRaise as t:
-        twin = ('raise', t.key, t.sig)
+    # buggy twins: all construct-level defects on, with and without the (environment-level) unit-definition defect
+    twins = []
+    for unitdef in ((True, False) if R.bad_customs(env.get('units')) else (False,)):
+        tw = R.LogEval(env, twin=True, unitdef=unitdef)
+        try:
+            res = ('value',) + tuple(tw.node(tree))
+        except R.TwinRaise as t:
+            res = ('raise', t.key, t.sig)
+        twins.append((res, sorted(tw.used)))
     devs, mon = [], {'solver_results_compared': 0, 'node_results_compared': 0}
     sample = dict(environment=text, expression=expr, expected=good)
 
-    def twin_keys():
-        return sorted(tw.used)
-
     def judge_exc(e, via):
         sample['observed_' + via] = exc_sig(e)
-        if twin[0] == 'raise':
-            tnames, frag = twin[2]
-            if type(e).__name__ in tnames.split('|') and any(f in str(e) for f in frag.split('|')):
-                devs.append(dev('logical-expression-rejected', dict(via=via, exc=exc_sig(e), expr=expr), known=twin[1]))
-                return
+        for twin, used in twins:
+            if twin[0] == 'raise':
+                tnames, frag = twin[2]
+                if type(e).__name__ in tnames.split('|') and any(f in str(e) for f in frag.split('|')):
+                    devs.append(dev('logical-expression-rejected', dict(via=via, exc=exc_sig(e), expr=expr), known=twin[1]))
+                    return
         devs.append(dev('logical-expression-rejected', dict(via=via, exc=exc_sig(e), expr=expr, env=text)))
 
     def judge_val(v, via):
@@ -449,11 +451,12 @@ def run_log(case, ctx):
         if not isinstance(v, bool):
             devs.append(dev('logical-result-not-boolean', dict(via=via, expr=expr, observed=repr(v))))
         elif v != good:
-            if twin[0] == 'value' and twin_keys() and (twin[1] == ('either',) or twin[1] == v):
-                for key in twin_keys():
-                    devs.append(dev('logical-value-differs', dict(via=via, expr=expr, expected=good, observed=v), known=key))
-            else:
-                devs.append(dev('logical-value-differs', dict(via=via, expr=expr, expected=good, observed=v, env=text)))
+            for twin, used in twins:
+                if twin[0] == 'value' and used and (twin[1] == ('either',) or twin[1] == v):
+                    for key in used:
+                        devs.append(dev('logical-value-differs', dict(via=via, expr=expr, expected=good, observed=v), known=key))
+                    return
+            devs.append(dev('logical-value-differs', dict(via=via, expr=expr, expected=good, observed=v, env=text)))
 
     kind, envobj = parse_text(ctx, text)
     if kind != 'ok':
@@ -481,11 +484,15 @@ def run_log(case, ctx):
         else:
             sample['observed_node'] = repr(got)
             # recorded: a bare numpy False coming straight from '==' leaves the node without a value
-            if (got[0] == 'unreadable' and twin[0] == 'value' and twin[2] is True and twin[1] is False and good is False):
-                devs.append(dev('expression-node-unreadable', dict(expr=expr, why=got), known=KEY_FALSEEQ))
-            elif (got[0] == 'unreadable' and twin[0] == 'value' and twin[2] is True and twin[1] is False and twin_keys()):
-                for key in twin_keys() + [KEY_FALSEEQ]:
-                    devs.append(dev('expression-node-unreadable', dict(expr=expr, why=got), known=key))
+            for twin, used in twins:
+                if got[0] == 'unreadable' and twin[0] == 'value' and twin[2] is True and twin[1] is False:
+                    if good is False:
+                        devs.append(dev('expression-node-unreadable', dict(expr=expr, why=got), known=KEY_FALSEEQ))
+                        break
+                    if used:
+                        for key in used + [KEY_FALSEEQ]:
+                            devs.append(dev('expression-node-unreadable', dict(expr=expr, why=got), known=key))
+                        break
             else:
                 devs.append(dev('expression-node-unreadable', dict(expr=expr, env=text, why=got)))
     nitems = sum(len(a[1]) for a in tree[1])
